@@ -136,7 +136,7 @@ func TestC02(t *testing.T) {
 	thorough := os.Getenv("VERIF_TIER") == "thorough"
 	rec.Rule("valid sealed tuples (C03 generator); per tuple: positive control, then single-bit flips of the ClientHello message body (quick: 96 sampled bits; thorough: every bit), header flips (tolerant), and the substitutions wrong key (same/other id), wrong info (config differing in public name / suites / id with the same private key), suite named != suite used, wrong config id, enc/payload truncated/extended/swapped, AAD over a different session id. Oracle: never accepted; fall-back byte-exact when the mutated message is still well-formed. distinct = (hello hash, mutation); every mutation is non-trivial")
 	rec.Mandatory("flip:random", "flip:session_id", "flip:cipher_suites", "flip:ext_header", "flip:sni_body", "flip:ech_suite", "flip:ech_config_id", "flip:ech_enc", "flip:ech_payload", "flip:versions_body",
-		"sub:wrong_key_same_id", "sub:wrong_key_other_id", "sub:wrong_info_public_name", "sub:wrong_info_suites", "sub:suite_mismatch", "sub:wrong_config_id", "sub:enc_truncated", "sub:payload_truncated", "sub:payload_extended", "sub:payload_swapped", "sub:aad_other_sid", "sub:suite_not_offered")
+		"sub:wrong_key_same_id", "sub:wrong_key_other_id", "sub:wrong_info_public_name", "sub:wrong_info_suites", "sub:suite_mismatch", "sub:wrong_config_id", "sub:enc_truncated", "sub:payload_truncated", "sub:payload_extended", "sub:payload_swapped", "sub:aad_other_sid", "sub:suite_not_offered", "sub:wrong_config_id_sealed")
 	rapid.Check(t, func(t *rapid.T) {
 		sc := drawSealed(t, false)
 		hh := sha256.Sum256(sc.OuterMsg)
@@ -272,6 +272,22 @@ func TestC02(t *testing.T) {
 		one("sub:wrong_config_id", "the extension names another config id", rebuild(sc.Suite.KDF, sc.Suite.AEAD, sc.Key.ID+1, enc, payload))
 		other3b, _ := hello.NewKey(other.Priv.Bytes(), sc.Key.ID+1, sc.Key.PublicName, hello.AllSuites)
 		withKeys([]*hello.Key{sc.Key, other3b}, "sub:wrong_config_id", "the extension names the id of another key the server holds", rebuild(sc.Suite.KDF, sc.Suite.AEAD, sc.Key.ID+1, enc, payload))
+		// the client names (and authenticates, through the AAD) the id of another key the server
+		// holds, but seals to this key: no key "whose config id the client named" opens it
+		{
+			slw, err := hello.NewSealer(sc.Key.Config, sc.Key.Priv.PublicKey().Bytes(), sc.Suite, sc.Key.ID+1)
+			if err != nil {
+				t.Fatalf("harness: %v", err)
+			}
+			ow := sc.Tuple.Outer.Clone()
+			encw := hello.Encode(hello.Compress(sc.Tuple.Inner, sc.Tuple.RunStart, sc.Tuple.RunLen), make([]byte, sc.Tuple.Pad))
+			mw, err := slw.SealOuter(ow, encw, true)
+			if err != nil {
+				t.Fatalf("harness: %v", err)
+			}
+			withKeys([]*hello.Key{sc.Key, other3b}, "sub:wrong_config_id_sealed", "the hello names (in the AAD too) the id of another held key but is sealed to this key", hello.Record(22, sc.RecVer, mw))
+			withKeys([]*hello.Key{other3b, sc.Key}, "sub:wrong_config_id_sealed", "the hello names (in the AAD too) the id of another held key but is sealed to this key", hello.Record(22, sc.RecVer, mw))
+		}
 		// enc / payload truncated, extended
 		k := rapid.IntRange(1, len(enc)).Draw(t, "enc_cut")
 		one("sub:enc_truncated", fmt.Sprintf("enc truncated by %d bytes", k), rebuild(sc.Suite.KDF, sc.Suite.AEAD, sc.Key.ID, enc[:len(enc)-k], payload))
